@@ -1140,6 +1140,12 @@ def run_family(prop, family, tier, seed, build, impl=None, skip_mc=False, max_la
         if key not in pcache:
             pcache[key] = (len(pcache), (seed * 7919 + len(pcache) * 104729) % (2 ** 31))
         gid, pseed = pcache[key]
+        if family == "freq" and not opts["sparse"] and not opts["reduced"] and len(tasks) % 2 == 0:
+            # the mass ALONE times 2^30: frequencies / 2^15, i.e. inside (1e-6, 0.05) rad/s, where the 0.1 rad/s
+            # rounding of the sort must not be mistaken for the <= 1e-6 filter (number of pairs, mass scaling law).
+            # Dense path only: the sparse path's fixed shift sigma = -1 leaves omega^2 << 1 unresolved (its modes
+            # then miss the residual bound by 10..1e4 on the unchanged tree) - reported, not judged.
+            prob = dict(prob, s=prob["s"] * 2 ** 30)
         tasks.append((len(tasks), prob, opts, pseed, gid))
         rep.nontrivial(("A", key, opts["api"], opts["sparse"], opts["num"], opts["sort"], opts["reduced"]))
     excluded = collections.Counter()
@@ -1190,6 +1196,10 @@ def run_family(prop, family, tier, seed, build, impl=None, skip_mc=False, max_la
             out.append(dict(api="freq", sparse=True, num=nums(), sort=False, reduced=False, pos=0))
             out.append(dict(api="freq", sparse=False, num=nums(), sort=False, reduced=False, pos=0))
             out.append(dict(api="freq", sparse=False, num=nums(), sort=True, reduced=True, pos=0))
+            # mass alone scaled far up: the lowest frequencies land in (1e-6, 0.05) rad/s (dense path, see lattice note)
+            out.append(dict(api="freq", sparse=False, num=k1, sort=True, reduced=False, pos=0,
+                            scales=[Fraction(2 ** 24), Fraction(2 ** 34)]))
+            out.append(dict(api="freq", sparse=False, num=k1, sort=False, reduced=False, pos=0, scales=[Fraction(2 ** 30)]))
             out.append(dict(api="freq", sparse=True, num=k1, sort=True, reduced=False, pos=0, tpow=-60))
             out.append(dict(api="freq", sparse=False, num=k1, sort=False, reduced=False, pos=0, tpow=[60, -60][int(rs.randint(0, 2))]))
             if with_panel:
